@@ -42,7 +42,7 @@ func c06Step(c *vh.Ctx, spec *core.Spec, cs stepCase) {
 		st := &core.State{NodeName: cs.Node, Bs: match.Bindings(cloneM(cs.Bs))}
 		pending := clone(cs.Pending)
 		ctl := &core.Control{Limit: 5, Breakpoints: map[string]core.Breakpoint{"never": neverBreak}}
-		props := core.StepProps{"cfg": M{"x": 1.0, "l": []interface{}{1.0}}, "s": "v"}
+		props := core.StepProps{"cfg": M{"x": 1.0, "l": []interface{}{1.0}}, "s": "v", "hosts": []interface{}{M{"name": "a", "up": true, "tags": []interface{}{"x"}}, []interface{}{M{"deep": 1.0}}}}
 		b := [5]string{snap.Of(st), snap.Of(pending), snap.Of(spec), snap.Of(ctl), snap.Of(props)}
 		var stride *core.Stride
 		var err error
@@ -134,7 +134,7 @@ func c06Walk(c *vh.Ctx, spec *core.Spec, cs walkCase) {
 			bp := cs.Bp
 			ctl.Breakpoints["bp"] = func(_ context.Context, s *core.State) bool { return s.NodeName == bp }
 		}
-		props := core.StepProps{"cfg": M{"x": 1.0}}
+		props := core.StepProps{"cfg": M{"x": 1.0}, "hosts": []interface{}{M{"name": "a", "up": true, "tags": []interface{}{"x"}}}}
 		b := [5]string{snap.Of(st), snap.Of(pend), snap.Of(spec), snap.Of(ctl), snap.Of(props)}
 		var w *core.Walked
 		var err error
